@@ -418,7 +418,7 @@ def run(ctx):
         t0 = time.time()
         run_corpus(ctx, stats)
         stats["corpus_wall_s"] = round(time.time() - t0, 1)
-        fams = [("with_rate_faults", 1600, 60000), ("single", 6, 240), ("permanent_path", 600, 20000), ("walk_faults", 500, 15000)]
+        fams = [("with_rate_faults", 1600, 25000), ("single", 6, 100), ("permanent_path", 600, 8000), ("walk_faults", 500, 6000)]
         from .. import explore as X
         from .. import families_c10 as FC
         from .. import enginecheck as EC
